@@ -14,7 +14,9 @@ func init() {
 				cfgs = []string{"linux", "linux-race", "darwin", "freebsd"}
 			}
 			for _, c := range cfgs {
-				r.use(c)
+				if r.useOpt(c) == nil {
+					continue
+				}
 				c04(r)
 			}
 		})
